@@ -166,7 +166,17 @@ def lean_stage(seed, tier):
         if hits:
             res["ok"] = False
             res["errors"].append({"kind": "forbidden", "msg": "; ".join(hits)})
-        # 3. build
+        # 3. build (the library root imports every module present)
+        mods = []
+        for dp, _, fns in sorted(os.walk(os.path.join(LEAN_DIR, "EnumToolsModel"))):
+            for fn in sorted(fns):
+                if fn.endswith(".lean"):
+                    rel = os.path.relpath(os.path.join(dp, fn), LEAN_DIR)[:-5]
+                    mods.append(rel.replace(os.sep, "."))
+        root = "".join(f"import {m}\n" for m in mods)
+        rp = os.path.join(LEAN_DIR, "EnumToolsModel.lean")
+        if not os.path.exists(rp) or open(rp).read() != root:
+            open(rp, "w").write(root)
         p = subprocess.run(["lake", "build"], cwd=LEAN_DIR, capture_output=True, text=True)
         res["build_rc"] = p.returncode
         out = p.stdout + p.stderr
